@@ -39,7 +39,7 @@ def pair_h(name, rstr, before, after, N):
         dump_image(ctx, outdir, "B_", rb, fname="img_b.h")
         with open(os.path.join(outdir, "tmpl.h"), "w") as f:
             f.write("#define T_A_IDX 0\n#define T_B_IDX %d\n#define T_A_RULE 0\n#define T_B_RULE %d\n" % (idx_b, idx_b))
-    return Harness(name="H1_pair_" + name, src="c05/twoimg.c", defines=["-DVF_N=%d" % N], gen=gen, unwind=N + 3, timeout=900, mem_gb=20,
+    return Harness(name="H1_pair_" + name, src="c05/twoimg.c", defines=["-DVF_N=%d" % N], gen=gen, unwind=N + 3, timeout=3000, mem_gb=20,
                    # the chained-string code is unreachable for these literal strings, but symex cannot see that through the
                    # symbolic string pointer of a multi-string image: its recursion/loops are bounded at 1 and the unwinding
                    # assertions (checked) prove they are never entered
@@ -51,7 +51,7 @@ def pair_h(name, rstr, before, after, N):
 
 def harnesses(ctx, tier):
     N = 4   # one 2-string pair at 5 bytes costs ~700 s / 10 GB; 3-string sets do not finish in 900 s at 4 bytes
-    pairs = [p for p in PAIRS if p[0] in ("prefix", "suffix", "same_atom", "overlap", "needed_failure_link")] if tier == "thorough" else [p for p in PAIRS if p[0] in ("prefix", "suffix", "needed_failure_link")]
+    pairs = [p for p in PAIRS if p[0] in ("prefix", "suffix", "same_atom", "needed_failure_link")] if tier == "thorough" else [p for p in PAIRS if p[0] in ("prefix", "suffix", "needed_failure_link")]
     hs = [pair_h(*p, N=N) for p in pairs]
     hs.append(Harness(name="H3_transitions_subset", src="c05/ac_leaf.c", defines=["-DVF_MODE=1"], unwind=5, timeout=300,
                       desc="_yr_ac_transitions_subset on two arbitrary child lists (<= 3 children, any bytes)", bounds="<= 3 children per state, all input bytes",
